@@ -35,6 +35,8 @@ MODES = ("auto", "fused", "blockwise", None)
 
 
 def dtype_for(rng):
+    if rng.random() < 0.05:
+        return "int64"  # integer-typed blocks: exact arithmetic in the library and in numpy
     return rng.choice(["float64", "float64", "complex128", "float32", "complex64"])
 
 
